@@ -575,6 +575,27 @@ def r17_8(ctx):
               "is_none_or_default_timeout decides on %s: 900.5 s counts as the default of 900 s, is left out of the front-matter and read back as 900 s" % trunc)
 
 
+def r17_9(ctx):
+    """writer / reader agreement on plain scalars: the one-liner writes a value unquoted when it consists of plain characters only - also `8080` or
+    `1.5`. The readers of free-text fields therefore take the scalar's *text*: a reader that buffers the input first (serde's untagged enums,
+    `deserialize_any` through `Content`) lets serde_yaml resolve a plain scalar to its YAML type, and a number-like wait path no longer reads as a path"""
+    prog = ctx.prog
+    bad = []
+    n = 0
+    for b in prog.bodies:
+        if b.promoted is not None or b.crate != "scrut-lib" or not (b.file or "").endswith("src/config.rs") or "::tests" in b.npath:
+            continue
+        n += 1
+        for bb, t in b.calls():
+            c = (t.get("callee") or "") + " " + (t.get("resolved") or "")
+            if "private::de::Content" in c or "ContentRefDeserializer" in c or "ContentDeserializer" in c or "de::content::" in c:
+                bad.append((b.loc(bb), b.npath))
+    ctx.check(not bad and n > 20, "no-typed-buffering", bad[0][0] if bad else "src/config.rs",
+              "no deserializer in src/config.rs buffers its input through serde's typed `Content` (%d bodies)" % n,
+              "%s buffers the input (untagged enum / deserialize_any): serde_yaml resolves plain scalars to their YAML type there, so the unquoted `path: 8080` that the "
+              "one-liner writes for a number-like wait path is read as an integer and the configuration just written is rejected" % sorted({x for _, x in bad})[:2])
+
+
 def run(ctx):
     ctx.run_rule("R17.1", "to_yaml_one_liner: every free-text value (environment keys/values, wait.path) passes a quoting function before interpolation [E-FLOW taint]", r17_1, floor=4)
     ctx.run_rule("R17.2", "key tables: one-liner keys == serde field names (write and read side) of TestCaseConfig / TestCaseWait; no field unrendered [E-TABLE]", r17_2, floor=3)
@@ -584,3 +605,4 @@ def run(ctx):
     ctx.run_rule("R17.5", "fence config: one `{}` pair stripped by the tokenizer, one re-wrapped by parser, update and one-liner [E-TABLE]", r17_5, floor=4)
     ctx.run_rule("R17.7", "is_empty (the `nothing to write` decision of generator and serde) looks at every field of the configuration [E-TABLE]", r17_7, floor=1)
     ctx.run_rule("R17.8", "quoting covers DEL / C1 controls (what JSON leaves raw and YAML rejects or folds); the default-timeout omission compares the whole duration (F36, F37) [E-TABLE]", r17_8, floor=2)
+    ctx.run_rule("R17.9", "readers of free-text fields take the scalar's text: no typed buffering (untagged enum: serde's `Content`) in src/config.rs, because the writer leaves plain number-like values unquoted [E-SITE]", r17_9, floor=1)
